@@ -16,6 +16,7 @@ pub mod c12;
 pub mod c15;
 pub mod c16;
 pub mod c10;
+pub mod c18;
 
 pub struct Tier {
     pub thorough: bool,
@@ -128,6 +129,7 @@ pub fn run_property(id: &str, t: &Tier, replay: Option<(String, std::collections
         "C15" => c15::run(&mut pr, t),
         "C16" => c16::run(&mut pr, t),
         "C10" => c10::run(&mut pr, t),
+        "C18" => c18::run(&mut pr, t),
         _ => return None,
     }
     let _ = explore;
